@@ -88,7 +88,9 @@ class SumLinearOperator(LinearOperator):
         from linear_operator.operators.diag_linear_operator import DiagLinearOperator
 
         if isinstance(other, ZeroLinearOperator):
-            return self
+            # refuse what (dense) addition refuses; adding zeros may still broadcast self to a larger batch shape
+            shape = torch.broadcast_shapes(self.shape, other.shape)
+            return self if shape == self.shape else self._expand_batch(shape[:-2])
         elif isinstance(other, DiagLinearOperator):
             return AddedDiagLinearOperator(self, other)
         elif isinstance(other, SumLinearOperator):
